@@ -51,6 +51,18 @@ def cases(tier, seed):
                       'seed': seed % 1000, 'kind': kind, 'dtype': dt,
                       # rows that no index refers to may hold anything
                       'junk': bool((ei + ki + r + len(out)) % 2)})
+  # one-feature data is as legal as any (formed points of shape (n, 1) look
+  # like a column of indicators)
+  for ei, name in enumerate(E.ALL):
+    for ki, kind in enumerate(KINDS):
+      if tier == 'quick' and (ei + ki) % 3:
+        continue
+      r = rng_for('c05-d1', seed, name, kind)
+      out.append({'est': name, 'params': {},
+                  'ds': {'seed': int(r.randint(2**31 - 1)), 'd': 1,
+                         'classes': 2, 'variant': 'plain', 'nmax': 40},
+                  'seed': seed % 1000, 'kind': kind,
+                  'dtype': DTYPES[(ei + ki) % 6], 'junk': False})
   return out
 
 
